@@ -328,3 +328,41 @@ prop("C03",
      not_decided=["termination of HTMLParser.mainLoop", "innerHTML-only assertions", "document skeleton invariant",
                   "depth of recursion in tree builders/walkers/serializer on deep trees"],
      explanation="termination and safety of the stack helpers; dispatch totality; handlers not covered")
+
+
+prop("C07",
+     level="proof",
+     frames=True,
+     level_text="Necessary conditions of the round trip, component by component, NOT the round trip itself: the optional-tag "
+                "filter omits a tag only where the standard's omission rule allows it and otherwise only drops tokens (C13 "
+                "contracts, for all tag names and neighbours); the serializer's loop body writes text, comments, end tags and "
+                "attribute values under the lexical conditions that make them read back as the same token, with the raw-text "
+                "flag local to one call (C08 step contract, bounded in attribute count); every code point the encoder replaces "
+                "is written as a reference that decodes back to it (ground, all 0x110000 code points). The filters carry no "
+                "state from token to token (frame obligation).",
+     level_note="The composition 'these lexical conditions imply parse(serialize(t)) == t' needs the tokenizer and tree-construction "
+                "semantics (C02 per-state contracts exist, C01 handlers do not) and is NOT mechanised: a change on the parser side "
+                "that breaks the round trip is NOT noticed here. Known findings inherited from C13 (</p> before datagrid/dialog/dir) "
+                "and C08/C14 (C1 controls written as numeric references).",
+     not_decided=["the composition lemma (needs C01)", "tree walkers (C11 covers their token stream)", "attribute sorting and meta "
+                  "charset injection (C18, C15)", "boolean attribute minimisation in the quick tier"],
+     explanation="component obligations of serializer and optional-tag filter; composition not mechanised")
+
+
+prop("C10",
+     level="proof",
+     frames=True,
+     level_text="Component obligations, NOT the re-parse itself: the sanitizer's gates hold for every token and arbitrary "
+                "allow-lists (C09 contracts: disallowed elements become text tokens, attributes/URLs/CSS filtered), the filter "
+                "keeps no state between tokens (frame), no element on the default allow-list has a raw-text name, so after the "
+                "sanitizer the serializer's raw-text state is unreachable (ground) and every text token goes through the escaping "
+                "branch, which writes neither '<' nor '>' and escapes '&' (C08 step contract); attribute values are always quoted "
+                "or free of the characters that end an unquoted value, with '&' escaped.",
+     level_note="That escaped text and quoted attribute values cannot be re-interpreted as markup by the parser in any context "
+                "(foreign content, select, tables, noscript with scripting on) is an argument over the tokenizer states (C02: "
+                "text without '<' produces only character tokens in the data and RCDATA states) that is NOT mechanised end to "
+                "end here. Custom allow-lists that admit style/script/xmp/iframe/noembed/noframes/noscript are outside the ground "
+                "obligation.",
+     not_decided=["re-parse in every context (composition with C02/C01)", "custom allow-lists admitting raw-text elements",
+                  "comments: the sanitizer drops them (C09 clause), conditional comments in re-parse not considered"],
+     explanation="sanitizer gates + serializer escaping + allow-list/raw-text disjointness; composition not mechanised")
